@@ -586,6 +586,18 @@ def _evaluate(case, o: Oracle, tab: L.Table, m: Mat, eff: int, tname: str) -> No
             tname, req, bad_fill[0], bad_fill[1], tab.pattern, bad_fill[2]))
     if o.fails:
         o.artifact("image_head", data[:64])
+    # (c') the initial offset is a property of the object: moved back to 0 afterwards, the object gives the full image with every
+    # supplied segment (also those that lay before the offset it was loaded with)
+    if eff > 0 and not o.fails:
+        with o.spsdk("init_offset", "lowered_afterwards"):
+            bimg.init_offset = 0
+            full = bytes(bimg.image_info().export())
+            placed0 = tab.place({n: len(b) for n, b in m.pay.items()}, 0)
+            if not placed0.overlaps:
+                want0 = placed0.image(m.pay, tab.pattern)
+                o.check("init_offset", full == want0, "lowered_afterwards", "%s: loaded with init offset %r, then set to 0: %s" % (tname, req, _diff(full, want0)))
+                o.label("init_offset_lowered")
+            bimg.init_offset = eff
     if header_only:
         return  # parse() of an image without application is not documented
 
